@@ -12,11 +12,14 @@ package main
 import (
 	"fmt"
 	"runtime"
+	"sort"
 	"strings"
 	"sync"
 )
 
 type deadlockReport struct {
+	orphaned       string // ids of the goroutines parked on a write mutex nobody holds any more
+	sample         string
 	selfDeadlocked []string // stacks (trimmed) of goroutines re-entering the write mutex
 	waiters        int      // goroutines parked on the write mutex in all
 }
@@ -82,4 +85,53 @@ func diagnoseWriteMutex(mu *sync.Mutex) *deadlockReport {
 		}
 	}
 	return rep
+}
+
+// orphanedWriteMutex looks for the other way to lose the processor's write
+// mutex: it is locked, and EVERY goroutine that is inside
+// FBaseProcessor.Process of this very processor (the receiver address in the
+// dump equals the mutex address, the mutex being the struct's first field) is
+// parked in lockSlow on it.  The mutex is only ever taken inside Process, so
+// its holder has left without releasing it and nobody can.  It returns the
+// sorted ids of the parked goroutines ("" if the condition does not hold) and
+// one of their stacks; the caller demands the same answer twice.
+func orphanedWriteMutex(mu *sync.Mutex) (ids string, sample string) {
+	if mu.TryLock() {
+		mu.Unlock()
+		return "", ""
+	}
+	addr := fmt.Sprintf("%p", mu)
+	var parked []string
+	for _, g := range strings.Split(allStacks(), "\n\n") {
+		if !strings.Contains(g, "(*FBaseProcessor).Process("+addr+",") {
+			continue
+		}
+		waits := false
+		for _, l := range strings.Split(g, "\n") {
+			if strings.HasPrefix(l, "sync.(*Mutex).lockSlow(") && strings.Contains(l, addr) {
+				waits = true
+				break
+			}
+		}
+		if !waits {
+			return "", "" // a goroutine of this processor that may hold the mutex and is not parked on it
+		}
+		head := g
+		if i := strings.Index(g, "\n"); i > 0 {
+			head = g[:i]
+		}
+		parked = append(parked, strings.Fields(head + " x x")[1])
+		if sample == "" {
+			lines := strings.Split(g, "\n")
+			if len(lines) > 22 {
+				lines = lines[:22]
+			}
+			sample = strings.Join(lines, "\n")
+		}
+	}
+	if len(parked) == 0 {
+		return "", ""
+	}
+	sort.Strings(parked)
+	return strings.Join(parked, ","), sample
 }
